@@ -20,6 +20,8 @@ FIXED = [
  ("C02", "body-limit rejection honours DetectionOnly", "ctl:ruleEngine=DetectionOnly in phase 1 + Sec{Request,Response}BodyLimitAction Reject + body over the limit: the write call returned a real 413/500 interruption and IsInterrupted() was true in DetectionOnly"),
  ("C06", "must not append into the shared rule", "data race (default build): doEvaluate appended per-transaction ctl:ruleRemoveTarget* exceptions into the backing array of the shared rule's Exceptions slice (rule with three configured !ARGS:x exclusions + ctl:ruleRemoveTargetById on two concurrent transactions)"),
  ("C13", "pattern cache keys carry their role", "cache keys without role or content: SecAction ctl:ruleRemoveTargetById=51;ARGS:/a.c/ built after a WAF with @pm a.c panics in NewWAF (AhoCorasick is not *regexp.Regexp); @pmFromDataset keyed by data set name and @pmFromFile by path made two WAFs with different contents under one name share the first matcher"),
+ ("C18", "first Write must not leak the body", "phase-3 deny keyed on a response header, handler writes without calling WriteHeader, response body access off: the implicit WriteHeader ran phase 3 and set 403, but the same Write call still sent its chunk, so the client got 403 with handler body bytes"),
+ ("C18", "passes 1xx informational responses through", "handler sends WriteHeader(103) then WriteHeader(404): the interceptor treated 103 as the response, dropped 404 as superfluous and the client received 200"),
 ]
 OPEN = [
  {"property": "C06", "status": "open",
